@@ -39,6 +39,10 @@ type c15ovRoute struct {
 	once     sync.Once
 	// status != 0: answer with this status and no list.
 	status int
+	// later, if not empty, answers the second, third... request of the path
+	// (the last entry answers all further ones); requests counts them.
+	later    []*c15ovRoute
+	requests int
 }
 
 type c15ovServer struct {
@@ -63,6 +67,13 @@ func (s *c15ovServer) set(path string, r *c15ovRoute) {
 func (s *c15ovServer) serve(w http.ResponseWriter, req *http.Request) {
 	s.mu.Lock()
 	r := s.routes[req.URL.Path]
+	if r != nil {
+		k := r.requests
+		r.requests++
+		if k > 0 && len(r.later) > 0 {
+			r = r.later[min(k, len(r.later))-1]
+		}
+	}
 	if r == nil {
 		s.unknown++
 	} else if r.split == 0 && s.gatedWaiting > 0 {
@@ -229,6 +240,9 @@ type c15ovWant struct {
 	OldProbe string
 	// Name, if not empty, is the configured name.
 	Name string
+	// Alt are other versions the list's server has served in the round; the
+	// list must be one of them as a whole (file, count and checksum).
+	Alt []*c15ovText
 }
 
 func (o *c15ovRound) run(rng *rand.Rand) {
@@ -523,6 +537,13 @@ func (o *c15ovRound) judge(scenario string, want map[string]*c15ovWant) {
 		}
 		p := filepath.Join(o.dataDir, filterDir, strconv.Itoa(int(fj.ID))+".txt")
 		stored, rerr := os.ReadFile(p)
+		for _, alt := range w.Alt {
+			// Judge against the version the file holds.
+			if rerr == nil && bytes.Equal(stored, alt.NF) && !bytes.Equal(stored, w.Text.NF) {
+				w.Text = alt
+				rep.Class("list-holds-another-served-version")
+			}
+		}
 		var diffs []string
 		switch {
 		case rerr != nil:
@@ -679,7 +700,7 @@ func TestVerifC15Overlap(t *testing.T) {
 	srv.srv = httptest.NewServer(http.HandlerFunc(srv.serve))
 	defer srv.srv.Close()
 
-	nRounds := verifkit.Pick(80, 800)
+	nRounds := verifkit.Pick(96, 960)
 	for n := 0; n < nRounds; n++ {
 		o := &c15ovRound{rep: rep, srv: srv, n: n, handlers: map[string]http.HandlerFunc{}, prefix: "overlap",
 			dataDir: filepath.Join(root, fmt.Sprintf("r%d", n))}
@@ -688,8 +709,10 @@ func TestVerifC15Overlap(t *testing.T) {
 
 			return
 		}
-		if n%3 == 2 {
+		if n%4 == 2 {
 			o.runScheduled(rep.Rand(fmt.Sprintf("round-%d", n)))
+		} else if n%4 == 3 {
+			o.runScheduledVsForced(rep.Rand(fmt.Sprintf("round-%d", n)))
 		} else {
 			o.run(rep.Rand(fmt.Sprintf("round-%d", n)))
 		}
